@@ -13,7 +13,7 @@ from ..common import load_findings
 from ..compare import same
 from .c08 import downgrade, zoo
 
-REQUIRED = ["skeleton_inner", "skeleton_main", "decision_untouched", "both_flags_error", "rewritten", "input_untouched", "crash_safe"]
+REQUIRED = ["skeleton_inner", "skeleton_main", "decision_untouched", "both_flags_error", "rewritten", "input_untouched", "failed_dump_untouched", "crash_safe"]
 
 OUTPUTS = ["none", "bare", "nested", "missingdir", "absolute", "same-as-input", "dotdot"]
 OLD, BYSTANDER = b"previous content of the destination", b"bystander"
